@@ -38,6 +38,48 @@ Proof.
   intros Hb. symmetry. apply N.add_nocarry_lxor. apply land_disjoint_shift. exact Hb.
 Qed.
 
+Lemma land_lt_pow2 b d n : b < 2 ^ n -> N.land b d < 2 ^ n.
+Proof.
+  intros Hb. rewrite <- (N.mod_small b (2 ^ n) Hb). rewrite <- land_mask.
+  rewrite <- N.land_assoc, (N.land_comm (N.ones n) d), N.land_assoc, land_mask.
+  apply N.mod_upper_bound. apply N.pow_nonzero. discriminate.
+Qed.
+
+Lemma land_split a b c d n : b < 2 ^ n -> d < 2 ^ n ->
+  N.land (a * 2 ^ n + b) (c * 2 ^ n + d) = N.land a c * 2 ^ n + N.land b d.
+Proof.
+  intros Hb Hd.
+  rewrite <- (lor_add a b n Hb), <- (lor_add c d n Hd).
+  rewrite N.land_lor_distr_l, !N.land_lor_distr_r.
+  rewrite (land_disjoint_shift a d n Hd).
+  rewrite (N.land_comm b (c * 2 ^ n)), (land_disjoint_shift c b n Hb).
+  rewrite N.lor_0_r, N.lor_0_l.
+  rewrite <- !shiftl_mul, <- N.shiftl_land, shiftl_mul.
+  apply lor_add. apply land_lt_pow2. exact Hb.
+Qed.
+
+(* ---------- byte decomposition of 16/32-bit values ---------- *)
+
+Lemma decomp16 u : u = u mod 256 + 256 * (u / 256).
+Proof. rewrite (N.div_mod u 256) at 1 by discriminate. lia. Qed.
+
+Lemma recomp16 b0 b1 : b0 < 256 -> b1 < 256 ->
+  (b0 * 256 + b1) mod 256 = b1 /\ (b0 * 256 + b1) / 256 = b0.
+Proof. intros H0 H1. split; lia. Qed.
+
+Lemma decomp32 u : u = u mod 256 + 256 * ((u / 256) mod 256) + 65536 * ((u / 65536) mod 256) + 16777216 * (u / 16777216).
+Proof.
+  rewrite (N.div_mod u 256) at 1 by discriminate.
+  rewrite (N.div_mod (u / 256) 256) at 1 by discriminate.
+  rewrite (N.div_mod (u / 256 / 256) 256) at 1 by discriminate.
+  rewrite !N.div_div by discriminate. change (256 * 256) with 65536. change (65536 * 256) with 16777216. lia.
+Qed.
+
+Lemma recomp32 b0 b1 b2 b3 : b0 < 256 -> b1 < 256 -> b2 < 256 -> b3 < 256 ->
+  let r := b0 * 16777216 + b1 * 65536 + b2 * 256 + b3 in
+  r mod 256 = b3 /\ (r / 256) mod 256 = b2 /\ (r / 65536) mod 256 = b1 /\ r / 16777216 = b0.
+Proof. intros H0 H1 H2 H3 r. subst r. repeat split; lia. Qed.
+
 (* ---------- kernel-evaluated sweeps over [start, start + 2^k) ---------- *)
 
 Fixpoint all_from (k : nat) (start : N) (f : N -> bool) : bool :=
